@@ -103,11 +103,13 @@ def build_harness(profile):
     if not os.path.exists(os.path.join(HARNESS, "Cargo.lock")) or True:
         shutil.copy(os.path.join(REPO, "Cargo.lock"), os.path.join(HARNESS, "Cargo.lock"))
     tdir = os.path.join(HARNESS, "target")
-    cmd = ["cargo", "build", "--offline", "--target-dir", tdir]
-    if profile == "rel":
-        cmd.append("--release")
+    cmd = ["cargo", "build", "--offline"]
     if profile == "relnopf":
         cmd += ["--release", "--no-default-features", "--target-dir", os.path.join(HARNESS, "target", "nopf")]
+    else:
+        cmd += ["--target-dir", tdir]
+        if profile == "rel":
+            cmd.append("--release")
     rc, out, dt = sh(cmd, cwd=HARNESS, timeout=3000)
     if rc != 0:
         return None, out
@@ -187,7 +189,7 @@ def model_matches(model, impl, profile):
 
 
 def spec_matches(spec, impl):
-    if spec in ("-", "X") or spec.startswith("-"):
+    if spec in ("-", "X") or spec.startswith("-") or impl == "X":   # X: command not applicable to this kind / type
         return True
     if "," in spec or "," in impl:
         ss, is_ = spec.split(","), impl.split(",")
